@@ -3,6 +3,8 @@ CONSTANTS
   Depth = 5
   BugGlobalFallback = FALSE
   BugSharedInstance = FALSE
+  BugCloneShares = FALSE
+  Focus = "all"
   Emit = FALSE
 VIEW AbstractView
 INVARIANT Reproducible
